@@ -55,7 +55,7 @@ def run_one(tape, opts):
     world = World()
     built = pl.Built()
     result = pl.build_stack(spec, world, built, make_testtools=lambda w, n: LoggingTestResult(w, n))
-    rep = pl.Reporter(result, hist)
+    rep = pl.Reporter(result, hist, reuse_details_dict=tape.chance("config", 1, 3, "reporter-reuses-details-dict"))
     windows = {}
     override = None
     tests = []
@@ -106,7 +106,7 @@ def run_one(tape, opts):
     finally:
         vclock.uninstall()
     if raised is None:
-        _check_terminals(out, built, world, tests, spec)
+        _check_terminals(out, built, world, tests, spec, hist)
         _check_bytest(out, built, hist, spec)
     # accounting
     nterm = len(built.terminals) + len(built.bytest)
@@ -146,10 +146,18 @@ def _texts(payload):
     return [b"".join(ch).decode("utf8") for shape, ch in (payload.get("details") or {}).values() if shape == "text" and b"".join(ch)]
 
 
-def _check_terminals(out, built, world, tests, spec):
+def _check_terminals(out, built, world, tests, spec, hist=()):
     done_tests = [t for t in tests if t.get("complete") and "method" in t]
     for term in built.terminals:
         fl = term["flavour"]
+        if fl in ("2.7", "extended", "testtools"):
+            # run boundaries: nothing dropped or duplicated either
+            for meth in ("startTestRun", "stopTestRun"):
+                sent = sum(1 for c in hist if c[0] == meth)
+                got_n = sum(1 for e in world.events if e.target == term["name"] and e.method == meth)
+                if got_n != sent:
+                    out.violate("call-duplicated" if got_n > sent else "call-lost", f"{fl}:{meth}",
+                                f"terminal {term['name']} behind {term['path']}: {meth} sent {sent} times, received {got_n}; stack {spec}")
         got = [e for e in world.events if e.target == term["name"] and e.method in ("startTest", "stopTest") + OUTCOMES]
         want = []
         for t in tests:
@@ -265,18 +273,19 @@ def _check_bytest(out, built, hist, spec):
             if w["start"] is None and w["stop"] is None and got["start_time"] and got["stop_time"] and got["start_time"] > got["stop_time"]:
                 out.violate("bytest-callback", "start-after-stop", f"{bt['name']}: {got['start_time']} > {got['stop_time']}")
             det = got["details"]
+            snap = got["snap"]
             if w["mode"] == "details":
                 sent = w["payload"]["details"]
-                have = {} if det is None else {n: b"".join(c.iter_bytes()) for n, c in det.items()}
+                have = {} if snap is None else {n: d["bytes"] for n, d in snap.items()}
                 for name, (shape, chunks) in sent.items():
                     if have.get(name) != b"".join(chunks):
                         out.violate("bytest-callback", "details", f"{bt['name']}: {w['tid']} detail {name!r}: {have.get(name)!r} sent {b''.join(chunks)!r}")
                         break
             elif w["mode"] == "exc_info" and w["method"] in ("addError", "addFailure", "addExpectedFailure"):
-                blob = b"" if det is None else b"".join(b"".join(c.iter_bytes()) for c in det.values())
+                blob = b"" if snap is None else b"".join(d["bytes"] for d in snap.values())
                 if w["payload"]["exc"].encode() not in blob:
                     out.violate("bytest-callback", "details", f"{bt['name']}: {w['tid']} traceback text missing")
             elif w["mode"] == "reason":
-                blob = b"" if det is None else b"".join(b"".join(c.iter_bytes()) for c in det.values())
+                blob = b"" if snap is None else b"".join(d["bytes"] for d in snap.values())
                 if w["payload"]["reason"].encode() not in blob:
                     out.violate("bytest-callback", "details", f"{bt['name']}: {w['tid']} skip reason missing from details")
